@@ -9,6 +9,8 @@ import (
 	"sort"
 	"sync"
 
+	"github.com/specterops/dawgs/cypher/models/cypher"
+
 	"verif/core"
 	"verif/enum/cyq"
 	"verif/xlate"
@@ -42,8 +44,13 @@ func translateCanonical(c hcase, km *xlate.Mapper) string {
 	if err != nil {
 		return "parse-error: " + err.Error()
 	}
+	return canonicalOn(q, c.Variant, km)
+}
+
+// canonicalOn is translateCanonical on an already parsed query.
+func canonicalOn(q *cypher.RegularQuery, variant string, km *xlate.Mapper) string {
 	P, V := xlate.ParameterSymbols(q), xlate.VariableSymbols(q)
-	params, inAST := build(c.Variant, P, V)
+	params, inAST := build(variant, P, V)
 	setASTValues(q, inAST)
 	o := xlate.AST(q, km.KindMapper, params)
 	switch o.Kind() {
